@@ -99,6 +99,14 @@ ITakeover ==
   /\ steps < MaxSteps /\ mut = "none" /\ verdict = {} /\ mode = "limbo" /\ s.lcause = "buffer_limit"
   /\ Apply(Ev("set_policy", 0, 0, <<>>, [k |-> "ok"], <<>>, sets), cur, "stream", sets, <<>>, cur)
 
+\* an owned record handed out by the iterator, with the outcome of its serialisation round trip (C19): the copy that came back
+\* and the number of fields written (nf) next to that of a record whose fields are all non-empty (nf_ref)
+SerdeOf(el, seq, nf) == [eq |-> seq = Concat(el.rec.lines), head |-> el.rec.head, seq |-> seq, qual |-> el.rec.qual, nf |-> nf, nf_ref |-> 3]
+ISerde ==
+  /\ steps < MaxSteps /\ mut = "none" /\ verdict = {} /\ mode = "stream" /\ chain[cur].okRec
+  /\ LET el == chain[cur] IN
+       Apply(Ev("iter", 0, 0, <<>>, RecRes(el) @@ [serde |-> SerdeOf(el, Concat(el.rec.lines), 3)], <<>>, sets), cur + 1, mode, sets, Append(delivered, cur), since)
+
 \* ---- wrong steps (each is one event an incorrect reader could produce); `mut` names the expected property
 Wrong(e, name) == LET j == Judge(fmt, chain, s, e) IN
   /\ verdict' = j.viol /\ mut' = name /\ steps' = MaxSteps /\ UNCHANGED <<fmt, x, chain, cur, mode, sets, s, delivered, since>>
@@ -197,7 +205,13 @@ MArithmetic == /\ steps < MaxSteps /\ mut = "none" /\ verdict = {} /\ mode = "st
 MCapNotAdopted == /\ steps < MaxSteps /\ mut = "none" /\ verdict = {} /\ mode = "stream" /\ chain[cur].okRec /\ s.cap > 0 /\ chain[cur].len + 1 > s.cap
                   /\ Wrong(EvX("next", RecRes(chain[cur]), Coords(chain[cur]), <<>>, <<[c |-> s.cap, a |-> 2 * s.cap, p |-> Pol]>>, 2 * s.cap + 3), "C09")
 
-Next == \/ (\E t \in 1..NSlots : IShrink(t)) \/ ITakeover \/ MPanicDue \/ MPanicSet \/ MTakeoverSkip \/ MCapRelease \/ MLenWrong \/ MShrinkLoses
+\* the copy that comes back from serialisation lacks a byte; the serialised form leaves a field out
+MSerdeLoses == /\ steps < MaxSteps /\ mut = "none" /\ verdict = {} /\ mode = "stream" /\ chain[cur].okRec /\ Concat(chain[cur].rec.lines) # <<>>
+               /\ LET el == chain[cur] IN Wrong(Ev("iter", 0, 0, <<>>, RecRes(el) @@ [serde |-> SerdeOf(el, Tail(Concat(el.rec.lines)), 3)], <<>>, sets), "C19")
+MSerdeShape == /\ steps < MaxSteps /\ mut = "none" /\ verdict = {} /\ mode = "stream" /\ chain[cur].okRec
+               /\ LET el == chain[cur] IN Wrong(Ev("iter", 0, 0, <<>>, RecRes(el) @@ [serde |-> SerdeOf(el, Concat(el.rec.lines), 2)], <<>>, sets), "C19")
+Next == \/ ISerde \/ MSerdeLoses \/ MSerdeShape
+        \/ (\E t \in 1..NSlots : IShrink(t)) \/ ITakeover \/ MPanicDue \/ MPanicSet \/ MTakeoverSkip \/ MCapRelease \/ MLenWrong \/ MShrinkLoses
         \/ IFault("other") \/ IFault("would_block") \/ IAfterFault \/ IInterrupted \/ IGrow \/ IRefused
         \/ MSwallowed \/ MKindChanged \/ MIntrSurfaces \/ MLateError \/ MTruncation \/ MFabricatedAfterError \/ MPanic
         \/ MGrowFits \/ MLimitWithoutRefusal \/ MWrongGrowArg \/ MArithmetic \/ MCapNotAdopted
